@@ -347,11 +347,18 @@ func doConc(req *wproto.Request, resp *wproto.Response) {
 	if b1 := mustMarshal(sw); b1 != b0 {
 		resp.Mismatches = append(resp.Mismatches, "document changed by New")
 	}
+	// the sequential baseline comes from a SEPARATE load + analysis of the same bytes, so that the
+	// Spec used concurrently has never been queried before: a lazily filled cache is still cold
+	swSeq := loadRoot(req, resp)
+	if swSeq == nil {
+		return
+	}
+	aSeq := analysis.New(swSeq)
 	seq := map[string]string{}
 	for _, s := range req.Scripts {
 		for _, c := range s {
 			if _, ok := seq[c.Key()]; !ok {
-				seq[c.Key()] = string(answer(a, sw, c))
+				seq[c.Key()] = string(answer(aSeq, swSeq, c))
 			}
 		}
 	}
@@ -361,6 +368,9 @@ func doConc(req *wproto.Request, resp *wproto.Response) {
 	}
 	var mu sync.Mutex
 	for e := 0; e < execs; e++ {
+		if e > 0 {
+			a = analysis.New(sw) // every execution of the schedule starts from a Spec nobody has queried
+		}
 		var wg sync.WaitGroup
 		start := make(chan struct{})
 		for gi, s := range req.Scripts {
